@@ -20,7 +20,6 @@ import (
 	"math"
 	"math/rand"
 	"sort"
-	"time"
 )
 
 const (
@@ -58,12 +57,13 @@ const (
 )
 
 func RandBytes(n int) []byte {
-	source := rand.NewSource(time.Now().UnixNano())
 	b := make([]byte, n)
-	// A src.Int63() generates 63 random bits, enough for letterIdxMax characters!
-	for i, cache, remain := n-1, source.Int63(), letterIdxMax; i >= 0; {
+	// rand.Int63() draws from the process-wide source (randomly seeded, safe for concurrent use) and
+	// generates 63 random bits, enough for letterIdxMax characters. A new source seeded from the clock on
+	// every call repeats itself: math/rand reduces the seed modulo 2^31-1.
+	for i, cache, remain := n-1, rand.Int63(), letterIdxMax; i >= 0; {
 		if remain == 0 {
-			cache, remain = source.Int63(), letterIdxMax
+			cache, remain = rand.Int63(), letterIdxMax
 		}
 		if idx := int(cache & letterIdxMask); idx < len(letterBytes) {
 			b[i] = letterBytes[idx]
